@@ -11,9 +11,13 @@ UNIT = dict(
         "BulkheadServiceError::from@From": dict(file="error"),
         "Bulkhead::new": dict(),
         "Bulkhead::poll_ready@Service": dict(rules=[("R10p", "BulkheadServiceError::Inner")]),
-        "Bulkhead::call@Service": dict(rules=[
+        # C07 quantifies over ALL max_wait settings: a possible panic / overflow on the admission path (e.g. `Instant::now() + max_wait`)
+        # means some caller is neither admitted nor rejected by the timeout
+        "Bulkhead::call@Service": dict(safety_tags=["C07"], rules=[
+            ("sub", "R9-paths", r"tokio::time::Instant\b", "Instant", -1),
             ("R4",), ("R3",), ("R5",),
-            ("sub", "R9-paths", r"tokio::time::timeout", "timeout", 1),
+            ("sub", "R9-paths", r"tokio::time::(timeout(?:_at)?)\b", r"\1", -1),
+            ("addarg", ["timeout_at"], "&*clk", -1),
             ("addarg", ["call"], TR, 1),
             ("addarg", ["drop"], TR, 1),
             ("R10e", 1),
